@@ -21,8 +21,8 @@ CONSTANTS
   CMaxNE,    \* operands with more elements are skipped
   WithC,   \* TRUE: enumerate triples (laws); FALSE: pairs only (c = a)
   CEmit,
-  DoubleSem  \* TRUE: the values are read as floating-point numbers: 2 stands for -0.0 (equal to 0, which is +0.0)
-             \* and 3 for a NaN (equal to nothing, not even itself; unordered)
+  DoubleSem  \* TRUE: the values are read as floating-point numbers: 2 stands for -0.0 (equal to 0, which is +0.0),
+             \* 3 for a NaN (equal to nothing, not even itself; unordered) and 4 for 0.5
 
 VARIABLES a, b, c
 cvars == <<a, b, c>>
@@ -38,7 +38,8 @@ Sub(x, i) ==
   LET m == Prod(Tail(x.shape)) IN
   [shape |-> Tail(x.shape), val |-> SubSeq(x.val, i * m + 1, (i + 1) * m)]
 
-Norm(u)  == IF DoubleSem /\ u = 2 THEN 0 ELSE u
+\* (compared on the doubled scale: 0 -> 0, 0.5 (the abstract value 4) -> 1, 1 -> 2)
+Norm(u)  == IF ~DoubleSem THEN u ELSE IF u = 2 THEN 0 ELSE IF u = 4 THEN 1 ELSE 2 * u
 IsNaN(u) == DoubleSem /\ u = 3
 VEq(u, v) == ~IsNaN(u) /\ ~IsNaN(v) /\ Norm(u) = Norm(v)
 VLt(u, v) == ~IsNaN(u) /\ ~IsNaN(v) /\ Norm(u) < Norm(v)
